@@ -2,9 +2,13 @@
 (* Dumps the domains Codec.tla enumerates as one JSON object                *)
 (* {format: [value, ...]} to the file named by the environment variable     *)
 (* C15_DOMAIN; harness/codec_driver.py feeds them to the real codecs.       *)
+(* `specs` are the LDAP object specifications (key, variants) from which    *)
+(* the harness draws further random objects.                                *)
 EXTENDS Codec, Json, IOUtils
 
 ASSUME JsonSerialize(IOEnv.C15_DOMAIN,
                      [rule |-> RuleSeq, uniq |-> UniqSeq, uid |-> UidSeq, event |-> EventSeq,
-                      zk |-> ZkSeq, ldap |-> LdapSeq])
+                      zk |-> ZkSeq, ldap |-> LdapSeq,
+                      specs |-> [partition |-> PartitionSpec, cellalloc |-> CellAllocSpec,
+                                 app |-> AppSpec]])
 =============================================================================
